@@ -2,7 +2,7 @@
    with no arguments and this = undefined, the way the embedding host does.  [host_call_eq_script_expr]
    relates that call to evaluating the call expression  main()  as script code in the same state. *)
 From Coq Require Import ZArith NArith PArith List Bool String Arith Lia.
-From JSRef Require Import Float Syntax Values Static Ops Interp Machine Builtins Run.
+From JSRef Require Import Float Syntax Values Static Ops Promises Interp Machine Builtins Run.
 From C01 Require Import Proofs_C01.
 Import ListNotations.
 Open Scope m_scope.
@@ -17,15 +17,16 @@ Definition call_main (self : ops) : M value :=
 
 Definition call_comp (P : prog) (self : ops) : M value :=
   let c := global_ctx (p_strict P) in
-  do _ <- global_declaration_instantiation P self (p_body P) c;;
-  do r <- o_run self (script_frames P) (CNormal None) c;;
-  match r with
-  | MDone (CNormal _) => call_main self
-  | MDone (CThrow v) => throwv v
-  | MDone (CReturn v) => ret v
-  | MDone _ => ret VUndef
-  | _ => unsupported 990%N
-  end.
+  then_drain self
+   (do _ <- global_declaration_instantiation P self (p_body P) c;;
+    do r <- o_run self (script_frames P) (CNormal None) c;;
+    match r with
+    | MDone (CNormal _) => call_main self
+    | MDone (CThrow v) => throwv v
+    | MDone (CReturn v) => ret v
+    | MDone _ => ret VUndef
+    | _ => unsupported 990%N
+    end).
 
 Definition run_call_script (fuel : nat) (P : prog) (st0 : state) : outcome :=
   outcome_of (call_comp P (mk P fuel) st0).
@@ -50,8 +51,10 @@ Lemma run_call_fuel_mono : forall n P o, run_call n P = o -> o <> OFuel -> foral
 Proof.
   intros n P o. unfold run_call. generalize init_state. intros i Ho Hnf k.
   destruct i as [st0|]; [|exact Ho].
-  unfold run_call_script in *. subst o. f_equal.
-  apply (call_comp_mono P _ _ (mk_mono P n k)). apply outcome_of_fuel. exact Hnf.
+  unfold run_call_script in *. subst o.
+  assert (E : call_comp P (mk P (n + k)) st0 = call_comp P (mk P n) st0).
+  { apply (call_comp_mono P _ _ (mk_mono P n k)). apply outcome_of_fuel. exact Hnf. }
+  rewrite E. reflexivity.
 Qed.
 
 (* ---- the call expression  main()  evaluated as script code *)
